@@ -14,4 +14,9 @@ TEXTS = {
   "level_text": "Exploration: generated precondition-respecting histories run on two backends at once, every result and the whole tree compared after each step; ops outside the preconditions must not panic and may only change addressed paths; host sentinels guard the disk root.",
   "level_note": "Trusts the model only for gating preconditions; the verdict is the backend-vs-backend comparison. Real temp directories under TMPDIR are used.",
   "design_ref": "DESIGN.md 4/C02"},
+ "C03": {
+  "technique": "exhaustive small-alphabet path enumeration x all op forms x 18 view kinds, plus rapid-generated long paths and call sequences; containment oracle (parent tree outside the root unchanged, no outside content observable)",
+  "level_text": "Exploration with an exhaustive core: all paths up to 4 (disk 3) segments over {in,out,.,..,''} (thorough 6/5) for every op form and view kind, then random longer paths and sequences. Each call is judged by comparing the parent tree outside the view root before/after and by scanning every returned value for outside-only content.",
+  "level_note": "Trusts the fixture construction and the walker; escaping paths may be rejected or clamped (both accepted); removal of a view's own root is not judged.",
+  "design_ref": "DESIGN.md 4/C03"},
 }
